@@ -417,6 +417,7 @@ func checkC12(res *Result) {
 		}
 		// every composite in the element deserialiser that fills a type member got its value from that type's deserialiser
 		info := pm.G.Pkg.TypesInfo
+		checkIRIAdmission(res, S, pm, "C12-R2", fn)
 		nBranches := 0
 		for _, cs := range compositesOf(info, pm.ElemDeser, pm.Elem) {
 			for _, kv := range cs.lit.Elts {
@@ -569,4 +570,84 @@ func localFuncLit(info *types.Info, fd *ast.FuncDecl, id *ast.Ident) *ast.FuncLi
 		return out == nil
 	})
 	return out
+}
+
+// guardsOf: the conjuncts of the conditions of the if statements (then-branches) enclosing n in
+// fd, innermost last; type-assertion inits contribute their `ok`. ok=false if n is not found.
+func guardsOf(fd *ast.FuncDecl, n ast.Node) ([]ast.Expr, bool) {
+	var out []ast.Expr
+	found := false
+	var stack []ast.Node
+	ast.Inspect(fd.Body, func(m ast.Node) bool {
+		if m == nil {
+			stack = stack[:len(stack)-1]
+			return true
+		}
+		if m == n {
+			found = true
+			for i, anc := range stack {
+				ifs, ok := anc.(*ast.IfStmt)
+				if !ok || i+1 >= len(stack) || stack[i+1] != ast.Node(ifs.Body) {
+					continue
+				}
+				var split func(e ast.Expr)
+				split = func(e ast.Expr) {
+					if p, ok := e.(*ast.ParenExpr); ok {
+						split(p.X)
+						return
+					}
+					if be, ok := e.(*ast.BinaryExpr); ok && be.Op == token.LAND {
+						split(be.X)
+						split(be.Y)
+						return
+					}
+					out = append(out, e)
+				}
+				split(ifs.Cond)
+			}
+		}
+		stack = append(stack, m)
+		return true
+	})
+	return out, found
+}
+
+// checkIRIAdmission: rule on one property (shared by C12-R2 and, for the addressing properties, C02).
+func checkIRIAdmission(res *Result, S *Streams, pm *PropModel, rule, fn string) {
+	info := pm.G.Pkg.TypesInfo
+	// "any property also admits an IRI": the iri member is filled under exactly the condition
+	// of the anyURI codec — the string parses and has a scheme — and under no further condition
+	if structHasField(pm.Elem, "iri") != nil {
+		nIRI := 0
+		for _, cs := range compositesOf(info, pm.ElemDeser, pm.Elem) {
+			setsIRI := false
+			for _, kv := range cs.lit.Elts {
+				if k, ok := kv.(*ast.KeyValueExpr); ok && isIdentNamed(k.Key, "iri") {
+					setsIRI = true
+				}
+			}
+			if !setsIRI {
+				continue
+			}
+			nIRI++
+			conds, ok := guardsOf(pm.ElemDeser, cs.lit)
+			var extra []string
+			hasScheme := false
+			for _, c := range conds {
+				t := strings.ReplaceAll(types.ExprString(c), " ", "")
+				switch {
+				case strings.HasSuffix(t, "==nil") || strings.HasPrefix(t, "nil=="):
+				case strings.Contains(t, ".Scheme)>0") || strings.Contains(t, ".Scheme)!=0") || strings.Contains(t, ".Scheme!=\"\"") || strings.HasSuffix(t, ".IsAbs()"):
+					hasScheme = true
+				case t == "ok":
+				default:
+					extra = append(extra, types.ExprString(c))
+				}
+			}
+			res.check(ok && hasScheme && len(extra) == 0, rule, fn, S.pos(cs.lit), pm.Name+" takes a string as an IRI exactly when it parses and has a scheme", fmt.Sprintf("scheme test present: %v; further conditions: %v — IRIs without a host (urn:, mailto:, as:Public, …) or other admitted IRIs are turned into unknown values for this property only", hasScheme, extra))
+		}
+		if pm.ElemDeser != nil {
+			res.check(nIRI >= 1, rule, fn, S.pos(pm.ElemDeser), pm.Name+" has a branch that fills the iri member", "none")
+		}
+	}
 }
